@@ -3111,7 +3111,7 @@ impl<'a, R: FileManager> FrontendCtx<'a, R> {
             (
                 RuntypeKind::Object {
                     vs,
-                    indexed_properties: _,
+                    indexed_properties,
                 },
                 other,
             ) => {
@@ -3135,6 +3135,9 @@ impl<'a, R: FileManager> FrontendCtx<'a, R> {
                                         acc.push(r.clone());
                                     }
                                 }
+                            } else if indexed_properties.is_some() {
+                                // an undeclared key falls under the index signature: resolve semantically
+                                return Ok(None);
                             } else {
                                 // noop (same as pushing never)
                             }
